@@ -90,6 +90,8 @@ impl<'a> LocalVariables<'a> {
     }
 
     pub(crate) fn load(&mut self, path: &str) -> Result<Arc<[InstructionWithStr]>, Error> {
+        #[cfg(simplesl_verif)]
+        use simplesl_verif_seams::fs;
         let contents = fs::read_to_string(path)?;
         self.parse_input(&contents)
     }
